@@ -269,17 +269,20 @@ def run(ctx, build):
             p._max_pos_per_read = rng.randint(1, N)      # small batches: several loop iterations
         pos = p._max_pos_per_read
         desc['max_pos_per_read'] = pos
-        signal.alarm(30)
+        # repeating timer: a timeout raised inside a callback that swallows exceptions is raised again a second later
+        signal.setitimer(signal.ITIMER_REAL, 30, 1)
         exc = None
         try:
-            with common.quiet():
-                p.compute()
+            try:
+                with common.quiet():
+                    p.compute()
+            finally:
+                signal.setitimer(signal.ITIMER_REAL, 0)
         except Timeout:
             exc = 'TIMEOUT'
         except Exception as e:
             exc = type(e).__name__
-        finally:
-            signal.alarm(0)
+        signal.setitimer(signal.ITIMER_REAL, 0)
         grp = p.h5_results_grp
         status = [int(x) for x in grp['completed_positions'][()]] if grp is not None and 'completed_positions' in grp else None
         desc['exception'] = exc
